@@ -24,11 +24,28 @@ func genC07(g *Gen, tier string) *Program {
 	if tier == "thorough" {
 		maxOps = 18
 	}
+	if g.Bool(30) {
+		// a sanitizer that rewrites the tag values used below: the scope is then
+		// registered under two keys (as given and sanitized)
+		c.Sanitize = sanMenu[0]
+		c.Flags = map[string]int{"dirtytags": 1}
+	}
 	genWorkload(g, p, wlOpts{
 		tasks: [2]int{1, 3}, ops: [2]int{4, maxOps}, scopes: pick(g, 1, 2, 3),
 		wDerive: 3, wCounter: 3, wInc: 8, wClose: 4, wSleep: 1, wYield: 1, wGauge: 1, wUpd: 1, wHist: 1, wRecH: 1,
 		reacquire: 85, closer: 10, values: pick(g, posMenu, posMenu, intMenu),
 	})
+	if c.Flags["dirtytags"] == 1 {
+		for ti := range p.Tasks {
+			for oi := range p.Tasks[ti] {
+				if op := &p.Tasks[ti][oi]; op.K == "tag" {
+					for k, v := range op.Tags {
+						op.Tags[k] = v + "-x"
+					}
+				}
+			}
+		}
+	}
 	// children of (possibly) closed scopes
 	for ti := range p.Tasks {
 		ops := p.Tasks[ti]
@@ -91,6 +108,11 @@ func checkC07(env *Env) []Violation {
 		}
 		if ci.liveness(sv) == live && sv.isNoop {
 			out = append(out, vf("inert-live-scope", "%s returned the inert scope although neither its parent nor the root had been closed", r.Op.String()))
+		}
+		// a scope requested after the Close of an earlier scope object of the same
+		// identity had returned must be a functional one, not that closed object
+		if ret, ok := ci.ret[sv.ptr]; ok && ret < r.Inv && ci.liveness(sv) == live && env.Prog.Cfg.Stack != "test" {
+			out = append(out, vf("closed-scope-returned", "%s (invoked at %d) returned the very scope object whose Close had returned at %d: what is recorded on it from now on can be dropped", r.Op.String(), r.Inv, ret))
 		}
 	}
 	return out
